@@ -338,6 +338,11 @@ def arr_attr(I, a, attr, node):
         return a.dtype or "float"
     if attr == "T":
         return Arr(tuple(reversed(a.shape)), a.val, a.dtype, {})
+    if attr == "data":
+        # the array's memory as a buffer: its bytes are those of tobytes() only when the memory is contiguous; the caller's
+        # own array (np.asarray hands it back unchanged) may be a strided view
+        own = not (isinstance(a, I_.SymArr) or a.meta.get("param") or a.meta.get("alias_of_param")) or bool(a.meta.get("contiguous"))
+        return I_.Opaque("bytes", {"of": a, "buffer": True, "contiguous": own})
     return FuncRef("method", attr, bound=a)
 
 
@@ -1206,6 +1211,23 @@ def method(I, f, args, kwargs, node):
             return r
         if name in ("ravel", "flatten", "reshape") and kwargs.get("order") not in (None, "C"):
             I.event("layout", node, "%s(order=%r): the order of the flattened elements depends on the memory layout of the array, not on its indices" % (name, kwargs.get("order")))
+        if name == "reshape" and b.shape is not None:
+            shp0 = args[0] if len(args) == 1 else Tup(args)
+            dims = [shp0] if isinstance(shp0, Expr) else list(shp0.items) if isinstance(shp0, Tup) else None
+            if dims is not None and all(isinstance(x, Expr) for x in dims):
+                free = [k for k, x in enumerate(dims) if x.eq(-ONE)]
+                if len(free) == 1:
+                    tot, rest = ONE, ONE
+                    for d in b.shape:
+                        tot = tot * d
+                    for k, x in enumerate(dims):
+                        if k != free[0]:
+                            rest = rest * x
+                    dims[free[0]] = (tot / rest).simp() if hasattr(tot / rest, "simp") else tot / rest  # the one dimension numpy infers
+                if len(dims) == 1:
+                    name = "ravel"  # a flat view in index order
+                else:
+                    args = [Tup(dims)]
         if name == "ravel":
             t = ONE
             for d in b.shape:
@@ -1242,6 +1264,9 @@ def method(I, f, args, kwargs, node):
                 if all(isinstance(p, bool) for p in preds):
                     return any(preds) if name == "any" else all(preds)
                 return BoolCombo("or" if name == "any" else "and", preds)
+            q = _quantified(I, name, b)
+            if q is not None:
+                return q
             return Unknown("array.%s()" % name)
         if name in ("sum", "max", "min", "mean"):
             return alg.fn(name, b.val) if isinstance(b.val, Expr) else Unknown(name)
@@ -1265,6 +1290,8 @@ def method(I, f, args, kwargs, node):
                     b.items[-1] = GenList(Tup(grp + [args[0]], "group"), L.ivar, L.rng)
                 else:
                     b.items.append(GenList(args[0], L.ivar, L.rng))
+            elif getattr(I, "generic_depth", 0):
+                b.items.append(Unknown("the elements appended in the loop at line %s, which is followed for one generic element only" % getattr(node, "lineno", "?")))
             else:
                 b.items.append(args[0])
             return None
@@ -1469,11 +1496,25 @@ def builtin(I, name, args, kwargs, node, env):
         return None
     if name == "enumerate":
         x = args[0]
-        if isinstance(x, Tup):
-            return Tup([Tup([alg.const(k), v]) for k, v in enumerate(x.items)], "list")
+        start = kwargs.get("start", args[1] if len(args) > 1 else ZERO)
+        if not isinstance(start, Expr):
+            return Unknown("enumerate from %r" % (start,))
+        if isinstance(x, Tup) and x.kind != "dict" and len(x.items) == 1 and isinstance(x.items[0], GenList):
+            g = x.items[0]
+            return Tup([GenList(Tup([start + alg.atom_expr(g.ivar), g.elem]), g.ivar, g.rng)], "list")  # position = the generic index of the element
+        if isinstance(x, Tup) and x.kind != "dict" and not any(isinstance(i, GenList) for i in x.items):
+            return Tup([Tup([start + alg.const(k), v]) for k, v in enumerate(x.items)], "list")
         return Unknown("enumerate")
+    if name == "map":
+        f, seqs = args[0], args[1:]
+        if seqs and all(isinstance(x, Tup) and x.kind != "dict" and not any(isinstance(i, GenList) for i in x.items) for x in seqs):
+            return Tup([I.call(f, list(t), {}, node, env) for t in zip(*[x.items for x in seqs])], "list")
+        if len(seqs) == 1 and isinstance(seqs[0], Tup) and len(seqs[0].items) == 1 and isinstance(seqs[0].items[0], GenList):
+            g = seqs[0].items[0]
+            return Tup([GenList(I.call(f, [g.elem], {}, node, env), g.ivar, g.rng)], "list")
+        return Unknown("builtin map")
     if name == "zip":
-        if all(isinstance(x, Tup) for x in args):
+        if all(isinstance(x, Tup) and not any(isinstance(i, GenList) for i in x.items) for x in args):
             return Tup([Tup(list(t)) for t in zip(*[x.items for x in args])], "list")
         return Unknown("zip")
     if name == "getattr":
@@ -1525,7 +1566,7 @@ def builtin(I, name, args, kwargs, node, env):
             return Tup(sorted(items, reverse=rev), "list")
         if all(isinstance(i, Expr) and i.as_const() is not None and i.as_const().im == 0 for i in items):
             return Tup(sorted(items, key=lambda e: e.as_const().re, reverse=rev), "list")
-        if all(isinstance(i, Expr) for i in items) and len(items) <= 3:
+        if all(isinstance(i, Expr) for i in items) and len(items) <= 4:
             # the order of symbolic values is decided comparison by comparison (one explored path per ordering)
             out = []
             for it in items:
@@ -1682,6 +1723,16 @@ def np_asarray(I, args, kwargs, node):
             r = r.copy()
         r.meta = dict(r.meta)
         r.meta["alias_of_param"] = True  # np.asarray hands back the caller's own array when it already has the requested dtype
+    return r
+
+
+def np_ascontiguous(I, args, kwargs, node):
+    r = np_asarray(I, args, kwargs, node)
+    if isinstance(r, Arr):
+        if r is args[0]:
+            r = r.copy()
+        r.meta = dict(r.meta)
+        r.meta["contiguous"] = True
     return r
 
 
@@ -1921,6 +1972,43 @@ def np_power(I, args, kwargs, node):
         r = map_unary(I, lambda v: alg.power(v, p), x, node)
         return r
     return Unknown("np.power")
+
+
+def np_classify(kind):
+    """np.isnan / isinf / isfinite: an elementwise predicate nothing is known about (both outcomes are possible for a free input)"""
+    def h(I, args, kwargs, node):
+        x = args[0] if args else None
+        if isinstance(x, Arr) and isinstance(x.val, Expr):
+            return Arr(x.shape, I_.Pred(alg.fn(kind, x.val), "!="), "bool")
+        if isinstance(x, Expr):
+            if x.as_const() is not None:
+                return kind == "isfinite"
+            return I_.Pred(alg.fn(kind, x), "!=")
+        return Unknown("np.%s" % kind)
+    return h
+
+
+def _quantified(I, name, x):
+    """any / all of a boolean array known through its generic element"""
+    v = x.val
+    if isinstance(v, bool):
+        return v
+    if isinstance(v, I_.Pred):
+        return I_.Pred(alg.fn("%s:%s0" % (name, v.op), v.e), "!=")
+    return None
+
+
+def np_anyall(name):
+    def h(I, args, kwargs, node):
+        x = args[0] if args else None
+        if isinstance(x, Arr) and not kwargs and len(args) == 1:
+            if _elements_of(x) is not None:
+                return method(I, I_.FuncRef("method", name, bound=x), [], {}, node)
+            q = _quantified(I, name, x)
+            if q is not None:
+                return q
+        return Unknown("np.%s" % name)
+    return h
 
 
 def np_where(I, args, kwargs, node):
@@ -2489,7 +2577,7 @@ EXT = {
     "numpy.array": np_array,
     "numpy.asarray": np_asarray,
     "numpy.asanyarray": np_asarray,
-    "numpy.ascontiguousarray": np_asarray,
+    "numpy.ascontiguousarray": np_ascontiguous,
     "numpy.asfortranarray": np_asarray,
     "numpy.ones": np_full("ones"),
     "numpy.zeros": np_full("zeros"),
@@ -2519,6 +2607,8 @@ EXT = {
     "numpy.concatenate": np_concatenate,
     "numpy.isin": np_isin,
     "numpy.count_nonzero": np_count_nonzero,
+    "numpy.isnan": np_classify("isnan"), "numpy.isinf": np_classify("isinf"), "numpy.isfinite": np_classify("isfinite"),
+    "numpy.any": np_anyall("any"), "numpy.all": np_anyall("all"),
     "numpy.sqrt": unary(alg.sqrt),
     "numpy.exp": unary(alg.exp),
     "numpy.log": unary(alg.log),
